@@ -33,15 +33,77 @@ def model_oracle(ctx, res, name, idxfile, block):
         ctx.hits.append({"key": key, "oracle": oracle, "what": line.split("\t", 1)[-1], "case": line,
                          "observed": {"index": i, "violation_class": cname}, "kind": "input"})
 
+HIST_CLASS = {
+    1: ("issued-unentitled", "a certificate came back for a request that, by the specification, does not entitle the named user - the state before the step is the model's, which has no memory of earlier requests (c01_verdict_history_independent, c01_old_cookie_stays_password_only)"),
+    2: ("no-error", "neither a certificate nor an error status"),
+    3: ("refused-entitled", "an orderly certificate request with a currently valid qualifying session this server handed out was refused (c01_complete_session, c01_complete_after_unseal)"),
+    4: ("valid-session-refused", "a login with the right password or a second-factor request with a currently valid session of this server and the right value was refused on the unsealed server (c01_complete_after_unseal, c01_own_alg_accepted_after_unseal)"),
+}
+
+def history_cases(ctx, hres):
+    """the histories of TestVerif_C01H evaluated by the memoryless process model inside Coq"""
+    if hres is None:
+        return
+    vfile = os.path.join(ctx.work, "CasesC01H.v")
+    res = ctx._orig_eval_cases(vfile, "CasesC01H.v")
+    if res is None:
+        return
+    lines = []
+    p = os.path.join(ctx.work, "CasesC01H.idx")
+    if os.path.exists(p):
+        lines = open(p).read().split("\n")
+    mism = res.get("c01h_mismatches")
+    label = "histories on one server process (logins, second factors, certificate requests with every cookie handed out, other routes, unseal operations; life cycles x key types): class of every step = the memoryless model"
+    if mism == "[]":
+        ctx.obligations.append(("corr:%s (%s histories)" % (label, res.get("c01h_ncases", "?")), True, "no mismatch"))
+    else:
+        ctx.obligations.append(("corr:" + label, False, "mismatch indices %s" % (mism or "missing")[:200]))
+        first = None
+        m = re.search(r"\[(\d+)", mism or "")
+        if m and int(m.group(1)) < len(lines):
+            first = lines[int(m.group(1))][:3000]
+        ctx.broken.append(("correspondence", "c01h_mismatches", {"label": label, "first_mismatch": first, "indices": (mism or "")[:400]}))
+    viol = res.get("c01h_violating") or ""
+    seen = {}
+    for m in re.finditer(r"\(\s*(\d+)\s*,\s*(\d+)\s*,\s*(\d+)\s*\)", viol):
+        ci, si, cls = int(m.group(1)), int(m.group(2)), int(m.group(3))
+        cname, oracle = HIST_CLASS.get(cls, ("class-%d" % cls, "property predicate on the observation"))
+        line = lines[ci] if ci < len(lines) else "case %d" % ci
+        part = "life-cycle" if "\tlife-cycle:" in line else "history"
+        key = "C01:model-oracle:%s:%s" % (cname, part)
+        n = seen.get(key, 0)
+        seen[key] = n + 1
+        if n >= 10:
+            continue
+        ctx.hits.append({"key": key, "oracle": oracle, "what": "step %d of: %s" % (si, line.split("\t", 1)[-1][:1500]),
+                         "case": {"index": ci, "step": si, "line": line[:3000]}, "observed": {"violation_class": cname}, "kind": "history"})
+
 def run(ctx):
     orig = ctx.eval_cases
+    ctx._orig_eval_cases = orig
+    hist = {}
     def eval_cases(vfile, label="correspondence", timeout=1800):
         res = orig(vfile, label, timeout)
         if res is not None:
             model_oracle(ctx, res, "c01_violating", "CasesC01.idx", "enumeration")
             model_oracle(ctx, res, "c01_combined_violating", "CasesC01x.idx", "combined-credentials")
+        if "thread" in hist:
+            hist["thread"].join()
+            history_cases(ctx, hist.get("result"))
         return res
     ctx.eval_cases = eval_cases
+    # the history harness runs beside the enumeration (its own test binary, same overlay files)
+    orig_go = ctx.go_harness
+    def go_harness(pkg, test, files, **kw):
+        if test == "TestVerif_C01" and "thread" not in hist:
+            import threading
+            def work():
+                ok, result, log = orig_go(pkg, "TestVerif_C01H", [f for f in files], **kw)
+                hist["result"] = result
+            hist["thread"] = threading.Thread(target=work)
+            hist["thread"].start()
+        return orig_go(pkg, test, files, **kw)
+    ctx.go_harness = go_harness
     return standard(ctx,
         props=[("Props.C01", ["c01_sound", "c01_sealed_refuses_everything", "c01_forwarding_headers_ignored", "c01_ip_certificate_needs_peer_inside", "c01_sufficient_iff", "c01_password_only_refused", "c01_password_session_401",
                               "c01_everything_else_refused", "c01_refused_is_error", "c01_complete_session",
@@ -49,8 +111,11 @@ def run(ctx):
                               "c01_certificate_decides", "c01_credentials_beside_certificate_ignored", "c01_nameless_certificate_no_identity",
                               "c01_session_issuer_exact", "c01_foreign_session_refused",
                               "c01_entitled_decides", "c01_issued_entitled",
-                              "c01_strict_refuted", "c01_old_refuted"])],
-        harness=("TestVerif_C01", ["kmd/common.go", "kmd/creds.go", "kmd/consts.go", "kmd/c01.go"]),
+                              "c01_strict_refuted", "c01_old_refuted",
+                              "c01_verdict_history_independent", "c01_verdict_depends_on_unseals_only", "c01_minted_token_stable",
+                              "c01_second_factor_mints", "c01_old_cookie_stays_password_only",
+                              "c01_own_alg_accepted_after_unseal", "c01_complete_after_unseal"])],
+        harness=("TestVerif_C01", ["kmd/common.go", "kmd/creds.go", "kmd/consts.go", "kmd/c01.go", "kmd/c01h.go"]),
         obl=("Obl_C01.v", ["c01_bits", "c01_bits_are_factors", "c01_method_strings", "c01_route", "c01_password_only"]),
         cases=("CasesC01.v", [("c01_mismatches", "result class of every enumerated request (issued for whom / error / neither) = model certgen, recomputed by Coq from the case index"),
                               ("c01_size_mismatches", "harness and model enumerate the same tables"),
